@@ -29,6 +29,13 @@ func init() {
 		if key == nil {
 			key = []byte{}
 		}
+		// keyof: the caller reuses the very key slice it handed to an earlier NewCipher (handle
+		// keyof), now holding this command's key bytes (next key loaded into the same buffer, or wiped)
+		if c.has("keyof") {
+			prev := ctx.objs[c.str("keyof")].(*sm4Obj)
+			copy(prev.key, key)
+			key = prev.key[:len(key)]
+		}
 		old := sm4.VerifCanDoAsm()
 		sm4.VerifSetCanDoAsm(c.boolean("asm") && old)
 		defer sm4.VerifSetCanDoAsm(old)
